@@ -1013,6 +1013,17 @@ pub fn run_check(check: &dyn Check, tier: Tier, seed: u64) -> i32 {
     }
 
     // evidence
+    if acc.samples.is_empty() {
+        // the run ended before any random case completed (a violation in an earlier stage):
+        // the schema still wants a sample of what the generator produces
+        let mut rng = TestRng::from_seed(RngAlgorithm::ChaCha, &seed_bytes(seed, 0, 7));
+        use proptest::prelude::RngCore;
+        let mut b = vec![0u8; CFG_LEN + REC_LEN * plan.max_recs.min(12)];
+        rng.fill_bytes(&mut b);
+        let t = Tape::from_bytes(&b);
+        let rendered = catch(|| check.render(&t)).unwrap_or_else(|p| json!({"render_panicked": p}));
+        acc.samples.push(json!({"note": "no random case completed in this run; this is one generated tape, decoded", "tape": t.to_hex(), "decoded": rendered}));
+    }
     let wall = start.elapsed().as_secs_f64();
     let mut coverage = serde_json::Map::new();
     coverage.insert("evaluations".into(), json!(acc.evaluations));
